@@ -157,6 +157,8 @@ class World:
             p = t.remove(op[1])
             if p is not None:
                 self.dead_incs.add(p.inc)
+        elif kind == "epoch0":        # a board without a battery-backed clock: the calendar starts at the epoch (btime 0)
+            t.btime = 0.0
         elif kind == "step":          # clock step: kernel-published boot time changes
             t.btime += op[1]
         elif kind == "thread":        # ("thread", pid, tid)
@@ -271,14 +273,15 @@ class World:
         elif kind == "set":           # ("set", h, kind, value)
             h = self.handles[op[1]]
             k, v = op[2], op[3]
+            kw = len(op) > 4 and op[4] == "kw"      # the keyword spelling of the same request
             if k == "nice":
-                fn = lambda: h.obj.nice(v)  # noqa: E731
+                fn = (lambda: h.obj.nice(value=v)) if kw else (lambda: h.obj.nice(v))
             elif k == "ionice":
-                fn = lambda: h.obj.ionice(v[0], v[1])  # noqa: E731
+                fn = (lambda: h.obj.ionice(ioclass=v[0], value=v[1])) if kw else (lambda: h.obj.ionice(v[0], v[1]))
             elif k == "rlimit":
-                fn = lambda: h.obj.rlimit(v[0], tuple(v[1]))  # noqa: E731
+                fn = (lambda: h.obj.rlimit(v[0], limits=tuple(v[1]))) if kw else (lambda: h.obj.rlimit(v[0], tuple(v[1])))
             elif k == "affinity":
-                fn = lambda: h.obj.cpu_affinity(list(v))  # noqa: E731
+                fn = (lambda: h.obj.cpu_affinity(cpus=list(v))) if kw else (lambda: h.obj.cpu_affinity(list(v)))
             rec["res"] = self._call(fn)
             rec["model_alive"] = self.alive(h)
             rec["model_owner"] = self.cur_inc(h.pid)
